@@ -35,9 +35,10 @@ from harness.translate import c15_ladder
 
 ID = "C15"
 LEVEL_TEXT = ("Theorems over every world (any package layout, any import-time behaviour of any module: raising, SystemExit, KeyboardInterrupt, a "
-              "BaseException subclass, missing dependency, in-place mutation or rebinding of sys.path; any exception while walking an imported module) "
+              "BaseException subclass, missing dependency, in-place mutation or rebinding of sys.path, code that calls back into Griffe at import time -- nested `with sys_path`, "
+              "dynamic_import, inspect, load(force_inspection=True) -- as nested scopes; any exception while walking an imported module) "
               "and every tree of re-entrant loads (alias resolution / wildcard expansion re-entering load, re-entered packages with stubs re-entering again, "
-              "to any depth), for a loader and for every public entry point (load, load_git, `griffe dump` over several packages, the loads of `griffe check`): "
+              "to any depth), for a loader, for any history of calls on one loader (load, resolve_aliases, load again ...) and for every public entry point (load, load_git, `griffe dump` over several packages, the loads of `griffe check`): "
               "with inspection neither allowed nor forced no module body runs, the inspector is never reached, sys.modules and sys.path are untouched, "
               "compiled modules are skipped (submodule) or refused (top level); every entry point forwards allow/force unchanged; with inspection, sys.path "
               "is bound to the same list object with the same contents afterwards (the finder falls back on sys.path, so the only hypothesis is that "
@@ -56,7 +57,9 @@ LEVEL_NOTE = ("Partial by nature: that compile(..., PyCF_ONLY_AST) / ast.parse e
               "KeyboardInterrupt, a BaseException subclass; OSError for a module without file) leave load unconverted: modelled as the code is, classified "
               "by C15_failures_classified; the property statement only asks for the restoration of sys.path, which holds for them. `griffe check` with "
               "inspection allowed is checked directly only (modules imported from the removed first worktree stay in sys.modules: outside the model). "
-              "os._exit, threads and code that keeps a reference to the original sys.path list object are outside the model. The restore theorems need "
+              "The options of a loader are parameters of the model: that no method assigns to them is checked by the translator and observed after every call "
+              "of a history. Nested Griffe calls made by analysed code are modelled as nested sys_path scopes with effects on sys.path inside (what the nested "
+              "import itself executes is not). os._exit, threads and code that keeps a reference to the original sys.path list object are outside the model. The restore theorems need "
               "search paths or sys.path to be non-empty (sys_path() without paths is a no-op; sharpness shown by an Example).")
 MODEL = ("Model.C15_loader", "run_C15")
 COQ_TARGETS = ["Proofs/C15_loader.vo", "Proofs/C15_restore.vo", "Proofs/C15_failures.vo", "Proofs/C15_reads.vo"]
@@ -69,7 +72,8 @@ RULE = ("systematic: a fixed package (top, a, sub/__init__, sub/k, compiled .so 
         "sampled loader options (allow x force x submodules x by name / relative path / Path / missing Path / hidden / stale search paths / default "
         "search paths x try_relative_path x find_stubs_package x resolve_aliases x resolve_external in {None,True,False} x resolve_implicit x packages "
         "importable from the running interpreter's own sys.path or not) and with the entry points load_git (name / path), dump (one or two packages, "
-        "with -s or the default search paths), check (new tree / new reference) on a git repository made of the layout; plus griffe.dynamic_import (with / "
+        "with -s or the default search paths), check (new tree / new reference) on a git repository made of the layout; histories on one loader (load root, resolve_aliases loading external packages, load two more packages "
+        "of the layout preferring those with compiled submodules, resolve again; options looked at after every call); plus griffe.dynamic_import (with / "
         "without import paths) and griffe.inspect called directly. A case is non-trivial when some agent is chosen or an import is attempted; distinct "
         "by (tree, entry, options). Exhaustive: ladder over 2x2x2x9 suffixes, not-found guard over 2x2, gates over 3x2^4.")
 TRUSTED = ["translator harness/translate/c15_ladder.py (whitelisted AST shapes of loader.py / importer.py / finder.py / cli.py and a call-site census; fails closed)",
